@@ -19,6 +19,7 @@ package header
 import (
 	"bytes"
 	"encoding/binary"
+	"errors"
 	"io"
 	"math/bits"
 	"sort"
@@ -36,6 +37,9 @@ func Write(w io.Writer, scalerType uint32, tables map[string][]byte) (int64, err
 		}
 	}
 	numTables := len(tableNames)
+	if numTables == 0 {
+		return 0, errors.New("sfnt/header: no tables to write")
+	}
 
 	// sort the table names in the recommended order
 	sort.Slice(tableNames, func(i, j int) bool {
